@@ -75,12 +75,17 @@ theorem parseArgsTail_comma (f r) : parseArgsTail (f+1) (.comma :: r) =
 
 /-! ## what may follow an expression -/
 
-/-- the next token does not continue a primary, and is no binary operator binding tighter than `q` -/
+/-- the next token closes a bracket / argument, or is a binary operator binding no tighter than `q` -/
 def okAfter (q : Nat) : List Tok → Prop
   | [] => True
-  | .dot :: _ | .lb :: _ | .lp :: _ => False
+  | .rp :: _ | .rb :: _ | .comma :: _ => True
   | .bin o :: _ => o.prec ≤ q
-  | _ => True
+  | _ => False
+
+theorem starts_of_ok {q r} (h : okAfter q r) : starts r = false := by
+  cases r with
+  | nil => rfl
+  | cons t r => cases t <;> simp_all [okAfter, starts]
 
 theorem okAfter_mono {q q' : Nat} (h : q ≤ q') : ∀ {r}, okAfter q r → okAfter q' r
   | [], _ => trivial
@@ -241,7 +246,7 @@ theorem primCast_print : ∀ (e : DExpr) (r : List Tok), primCast (print e ++ r)
   | .const v long, r => by
     by_cases hv : v < 0 <;> cases long <;> simp [print, constToks, hv, primCast]
   | .var _, _ | .param _, _ | .this, _ | .baseClass _ _, _ | .bin _ _ _, _ | .cast _ _, _ | .checkCast _ _ _, _
-  | .cmp true _ _, _ | .getStatic _ _ _, _ | .newArray _ _, _ | .newObj _ _ _, _ => by
+  | .cmp true _ _, _ | .getStatic _ _ _, _ | .newArray _ _, _ | .newObj _ _ _, _ | .scc _ _ _, _ => by
     simp [print, primCast, qnToks]
   | .un o _, _ => by cases o <;> simp [print, primCast]
   | .cond _ a _, r | .condzCmp _ a _, r | .cmp false a _, r | .condzNum _ a, r | .condzRef _ a, r
@@ -472,6 +477,7 @@ theorem starts_print : ∀ (e : DExpr), wf e = true → 14 ≤ level e → ∀ r
   | .newArray _ _, _, _, _ | .newObj _ _ _, _, _, _ => by simp [print, starts, qnToks]
   | .un o _, _, _, _ => by cases o <;> simp [print, starts]
   | .cmp false _ _, hw, _, _ => by simp [wf] at hw
+  | .scc i _ _, _, hl, _ => by cases i <;> simp [level] at hl
   | .cond o _ _, _, hl, _ | .condzCmp o _ _, _, hl, _ | .condzNum o _, _, hl, _ | .condzRef o _, _, hl, _ => by
     have := prec_le o; simp [level] at hl; omega
   | .condzBool o a, hw, hl, r => by
@@ -524,7 +530,7 @@ theorem isRp_print : ∀ (e : DExpr) (r : List Tok), isRp (print e ++ r) = false
   | .const v long, r => by
     by_cases hv : v < 0 <;> cases long <;> simp [print, constToks, hv, isRp]
   | .var _, _ | .param _, _ | .this, _ | .baseClass _ _, _ | .bin _ _ _, _ | .cast _ _, _ | .checkCast _ _ _, _
-  | .cmp true _ _, _ | .getStatic _ _ _, _ | .newArray _ _, _ | .newObj _ _ _, _ => by
+  | .cmp true _ _, _ | .getStatic _ _ _, _ | .newArray _ _, _ | .newObj _ _ _, _ | .scc _ _ _, _ => by
     simp [print, isRp, qnToks]
   | .un o _, _ => by cases o <;> simp [print, isRp]
   | .cond _ a _, r | .condzCmp _ a _, r | .cmp false a _, r | .condzNum _ a, r | .condzRef _ a, r
